@@ -13,12 +13,50 @@ from __future__ import annotations
 
 import ast
 
-from ..program import AnalysisError, FuncInfo, Program, unparse, short, walk_no_nested
+from ..program import AnalysisError, FuncInfo, Program, unparse, short, walk_no_nested, xunparse
 from ..report import Report
 from ..words import words, role_label
 from .. import statefx
 
 REDUCTIONS = {"sum", "cumsum", "cumprod", "sort", "argsort", "roll", "mean", "median", "average", "std", "var", "amax", "amin", "nanmax", "nanmin", "nanmean", "ptp", "flip", "shuffle", "permutation", "unique", "dot", "diff", "argmax", "argmin", "lexsort", "partition"}
+
+
+def particle_derived(prog: Program, fi: FuncInfo, extra_seed=()) -> tuple[set, set]:
+    """(local names, self attributes) whose value derives from the per-particle state arrays
+    (flow-insensitive closure over the assignments of one function)."""
+    env = prog.type_env(fi)
+    part = set(statefx.local_state_aliases(prog, fi)) | set(extra_seed)
+
+    def mentions(e) -> bool:
+        for x in ast.walk(e):
+            if isinstance(x, ast.Name) and x.id in part:
+                return True
+            if isinstance(x, ast.Attribute) and isinstance(x.value, ast.Name) and env.get(x.value.id) == "state":
+                return True
+            if isinstance(x, ast.Attribute) and isinstance(x.value, ast.Name) and x.value.id == "self" and ("self." + x.attr) in attrs:
+                return True
+        return False
+
+    attrs: set = set()
+    changed = True
+    while changed:
+        changed = False
+        for st in walk_no_nested(fi.node):
+            if isinstance(st, (ast.Assign, ast.AnnAssign, ast.AugAssign)) and st.value is not None and mentions(st.value):
+                for t in st.targets if isinstance(st, ast.Assign) else [st.target]:
+                    for el in t.elts if isinstance(t, (ast.Tuple, ast.List)) else [t]:
+                        if isinstance(el, ast.Name) and el.id not in part:
+                            part.add(el.id)
+                            changed = True
+                        base = el
+                        while isinstance(base, ast.Subscript):
+                            base = base.value
+                        if isinstance(base, ast.Attribute) and isinstance(base.value, ast.Name) and base.value.id == "self" and base.attr != "modules":
+                            k = "self." + base.attr
+                            if k not in attrs:
+                                attrs.add(k)
+                                changed = True
+    return part, attrs
 
 
 def forcing_cache_attrs(prog: Program) -> tuple[set[str], dict[str, str]]:
@@ -28,22 +66,20 @@ def forcing_cache_attrs(prog: Program) -> tuple[set[str], dict[str, str]]:
     where: dict[str, str] = {}
     for meth in ("update", "force_particles"):
         fi = prog.role_func("forcing", meth)
-        pos = {"X", "Y", "Z"}
+        seed = {p for p in fi.params if p in ("X", "Y", "Z")}
+        _, attrs = particle_derived(prog, fi, seed | ({"self.K", "self.A"} if meth == "force_particles" else set()))
+        # reads of the level caches make a value per-particle as well
         for node in walk_no_nested(fi.node):
-            if isinstance(node, ast.Assign):
-                names = {n.id for n in ast.walk(node.value) if isinstance(n, ast.Name)}
-                attrs = {unparse(n) for n in ast.walk(node.value) if isinstance(n, ast.Attribute)}
-                dep = bool(names & pos) or any(a in ("self.K", "self.A") for a in attrs)
-                if not dep:
-                    continue
-                tgts = node.targets[0].elts if isinstance(node.targets[0], ast.Tuple) else node.targets
-                for t in tgts:
-                    s = unparse(t)
-                    if s.startswith("self."):
-                        base = s[5:].split("[")[0]
-                        if base not in ("modules",):
-                            out.add(base)
-                            where[base] = fi.qual
+            if isinstance(node, ast.Assign) and any(unparse(a) in ("self.K", "self.A") for a in ast.walk(node.value) if isinstance(a, ast.Attribute)):
+                for t in node.targets[0].elts if isinstance(node.targets[0], ast.Tuple) else node.targets:
+                    b = t
+                    while isinstance(b, ast.Subscript):
+                        b = b.value
+                    if isinstance(b, ast.Attribute) and unparse(b.value) == "self" and b.attr != "modules":
+                        attrs.add("self." + b.attr)
+        for a in attrs:
+            out.add(a[5:])
+            where.setdefault(a[5:], fi.qual)
     return out, where
 
 
@@ -301,6 +337,18 @@ def kernel_independence(prog: Program, rep: Report) -> None:
                     bad.append(node)
             if isinstance(node, ast.Subscript) and isinstance(node.slice, ast.Slice) and node.slice.step is not None and isinstance(node.ctx, ast.Load):
                 bad.append(node)
+        # any()/all() over the particles deciding work that is not masked by the same array
+        from ..interp import any_guard_is_redundant, any_mask_of
+
+        for node in walk_no_nested(fi.node):
+            if isinstance(node, ast.If):
+                red = [x for x in ast.walk(node.test) if isinstance(x, ast.Call) and ((isinstance(x.func, ast.Attribute) and x.func.attr in ("any", "all") and not x.args) or unparse(x.func) in ("np.any", "np.all", "any", "all"))]
+                if not red:
+                    continue
+                only_stops = all(isinstance(b, ast.Raise) or (isinstance(b, ast.Expr) and isinstance(b.value, ast.Call) and unparse(b.value.func).split(".")[0] in ("logger", "logging")) or (isinstance(b, ast.If) and all(isinstance(c, (ast.Raise, ast.Expr)) for c in b.body + b.orelse)) for b in node.body + node.orelse)
+                if any_guard_is_redundant(node) or only_stops:
+                    continue
+                bad.append(node.test)
         rep.check(rule, q, "no cross-particle reduction / permutation on the numeric update path", not bad, what_bad=f"{[short(b) for b in bad]}: a particle's result would depend on the other particles", what_ok="element-wise only", loc=fi.loc())
 
 
@@ -370,8 +418,11 @@ def nondeterminism(prog: Program, rep: Report) -> None:
         if fi.module.name in statefx.SKIP_MODULES or fi.module.name.startswith("ibms"):
             continue
         for node in walk_no_nested(fi.node):
-            if isinstance(node, ast.Call) and ("random" in unparse(node.func)):
-                owners.append((fi, node))
+            if isinstance(node, ast.Call):
+                parts = unparse(node.func).split(".")
+                # np.random.<f>(...), random.<f>(...), numpy.random.default_rng(...), default_rng(...), RandomState(...)
+                if (len(parts) >= 2 and parts[0] in ("np", "numpy") and parts[1] == "random") or parts[0] == "random" or parts[-1] in ("default_rng", "RandomState", "SeedSequence"):
+                    owners.append((fi, node))
     for fi, node in owners:
         rep.check(rule, fi.qual, short(node), fi.qual == "tracker.Tracker.__init__", what_bad="a random generator outside the tracker: randomness that the diffusion switches do not control", what_ok="the tracker's generator (uses are guarded by the diffusion flags, see C11 R11.4)", loc=fi.loc(node))
     from .c01 import update_normal_form
@@ -561,9 +612,9 @@ def fields_independent_of_particles(prog: Program, rep: Report) -> None:
                     tg = n.targets if isinstance(n, ast.Assign) else [n.target]
                     for t in tg:
                         for tt in (t.elts if isinstance(t, ast.Tuple) else [t]):
-                            if unparse(tt).startswith("self.fields["):
+                            if xunparse(tt, fi.node).startswith("self.fields["):
                                 out.append(n)
-                if isinstance(n, ast.Call) and unparse(n.func) in ("self._read_velocity", "self._read_field", "self.open_forcing_file", "self._select_file"):
+                if isinstance(n, ast.Call) and unparse(n.func) in ("self._read_velocity", "self._read_field", "self.open_forcing_file", "self._select_file") and n not in out:
                     out.append(n)
         return out
 
@@ -638,5 +689,7 @@ AUDIT = [
     Mut("clock-decides-work", MO, "        self.release.update()\n        self.force.update()\n\n        # self.state.compactify()", "        import time\n        t = time.time()\n        self.release.update()\n        if t % 2 < 1:\n            self.force.update()\n\n        # self.state.compactify()", rule="R14.3"),
     Mut("benign-clock-attribute-logged", TR, "        self.rng = np.random.default_rng()\n", "        import time\n        self._t0 = time.perf_counter()\n        logger.debug('tracker set up at %s', self._t0)\n        self.rng = np.random.default_rng()\n", expect="silent"),
     Mut("metric-cached-across-steps", TR, "        self.dx, self.dy = grid.metric(X, Y)\n", "        if not hasattr(self, 'dx') or len(self.dx) != len(X):\n            self.dx, self.dy = grid.metric(X, Y)\n", rule="R14.6"),
+    Mut("inactive-reset-under-any-guard", TR, "        state.alive[out_of_grid] = False\n        state.active[out_of_grid] = False  # Not necessary if they are removed\n\n        # Do not move inactive particles\n        inactive = ~state.active\n        X1[inactive] = X[inactive]\n        Y1[inactive] = Y[inactive]\n", "        if out_of_grid.any():\n            state.alive[out_of_grid] = False\n            state.active[out_of_grid] = False\n            inactive = ~state.active\n            X1[inactive] = X[inactive]\n            Y1[inactive] = Y[inactive]\n", rule="R14.2"),
+    Mut("benign-kill-under-any-guard", TR, "        state.alive[out_of_grid] = False\n        state.active[out_of_grid] = False  # Not necessary if they are removed\n", "        if out_of_grid.any():\n            state.alive[out_of_grid] = False\n            state.active[out_of_grid] = False\n", expect="silent"),
     Mut("benign-log-time", RO, "        # Local depth level and interpolation coefficient", "        logger.debug('time %s', self.modules['time'].time)", expect="silent"),
 ]
